@@ -12,7 +12,7 @@ RECS = ["R-N500", "RX-A2A", "RX-A6A", "RX-A810", "RX-V1067", "RX-V2067", "RX-V47
 def jobs(rng, thorough):
     T = core.tables()
     out = []
-    for _ in range(4000 if thorough else 400):
+    for _ in range(30000 if thorough else 400):
         out.append((gen.subunit_init(rng, T), rng.randrange(10 ** 9), rng.choice([0, 0, 3, 6])))
     return out
 
